@@ -330,6 +330,123 @@ def run_bytes(rep, rng, n, root):
     return rows, found
 
 
+SBYTES_DEFS = COQ_DEFS + """
+Definition mkfield n v c := {| fname := n; fvalue := v; fcont := c |}.
+(* ending: 0 = blank lines after every stanza, 1 = final newline only, 2 = file ends inside the last section *)
+Definition m_sbytes (c : nat * list (list sfield * nat) * list sfield * (string * list (string * string * string) * list (string * string * string)) *
+                         (list string * list string * list string * list string) * list string * string)
+  : bool * string * obs :=
+  match c with (ending, ss, last, (k, fs, xs), (a, b, c1, d), ign, root) =>
+    let flt := mkf a b c1 d in
+    match ending, xs with
+    | 0, _ => (wf_sindex ss, render_sources_spaced ss, show (POk (sindex_entries flt ign (parse root) ss)))
+    | 1, _ => let all := ss ++ [(last, 0)] in
+              (wf_sindex all, render_sources_tight ss last, show (POk (sindex_entries flt ign (parse root) all)))
+    | _, x :: _ => let all := ss ++ [(last ++ [SFSection k (fs ++ [x])], 0)] in
+              (wf_sindex all, render_sources_unterminated ss last k fs x, show (POk (sindex_entries flt ign (parse root) all)))
+    | _, [] => (false, EmptyString, None)
+    end
+  end.
+Definition eq_sbytes (x y : bool * string * obs) : bool :=
+  match x, y with (w1, t1, o1), (w2, t2, o2) => Bool.eqb w1 w2 && String.eqb t1 t2 && eq_obs o1 o2 end.
+"""
+SECTION_KEYS = ["Files", "Checksums-Sha1", "Checksums-Sha256", "Checksums-Sha512", "Checksums-Sha3", "Checksums-Md5"]
+
+
+def gen_sbytes_case(rng):
+    def sfields(i):
+        out = []
+        for n, v, cont in gen_sources_stanza(rng, i):
+            if n == "Package":
+                out.append(("P", v))
+            elif n == "Directory":
+                out.append(("D", v))
+            elif n in SECTION_KEYS:
+                out.append(("S", n, [tuple(c.split()) for c in cont]))
+            else:
+                out.append(("O", n, v, [c[1:] for c in cont]))
+        return out
+    n = rng.choice([0, 1, 2, 3, 5])
+    ss = [(sfields(i), rng.randint(0, 2)) for i in range(n)]
+    ending = rng.choice([0, 0, 1, 2])
+    last, tail = [], None
+    if ending == 1:
+        last = sfields(50)
+    elif ending == 2:
+        last = [f for f in sfields(50) if f[0] != "S"] + [("P", "omega"), ("D", "pool/main/o/omega")]
+        files = [("%016x" % rng.getrandbits(64), str(rng.choice([3, 44, 1000])), f"omega_1.{j}.tar.gz") for j in range(rng.randint(1, 3))]
+        tail = (rng.choice(SECTION_KEYS[:4]), files[:-1], files[-1])
+    flt = {"inc_src": [], "exc_src": [], "inc_bin": [], "exc_bin": []}
+    for k in ("inc_src", "exc_src"):
+        if rng.random() < 0.25:
+            flt[k] = rng.sample(PKGS, rng.randint(1, 3))
+    ign = rng.sample(["pool/main/a", "pool/main/b/beta", "pool"], rng.randint(0, 1)) if rng.random() < 0.3 else []
+    return {"ending": ending, "ss": ss, "last": last, "tail": tail, "flt": flt, "ign": ign}
+
+
+def py_render_sbytes(case):
+    def fl(x):
+        return " " + " ".join(x) + "\n"
+
+    def st_text(st):
+        out = []
+        for f in st:
+            if f[0] == "P":
+                out.append("Package: " + f[1] + "\n")
+            elif f[0] == "D":
+                out.append("Directory: " + f[1] + "\n")
+            elif f[0] == "S":
+                out.append(f[1] + ":\n" + "".join(fl(x) for x in f[2]))
+            else:
+                out.append(f[1] + ":" + ((" " + f[2]) if f[2] else "") + "\n" + "".join(" " + c + "\n" for c in f[3]))
+        return "".join(out)
+    text = "".join(st_text(st) + "\n" * (1 + k) for st, k in case["ss"])
+    if case["ending"] == 1:
+        text += st_text(case["last"])
+    elif case["ending"] == 2:
+        k, fs, x = case["tail"]
+        text += st_text(case["last"] + [("S", k, fs)]) + fl(x)[:-1]
+    return text
+
+
+def run_sbytes(rep, rng, n, root):
+    found = False
+    rows = []
+
+    def cs(f):
+        if f[0] == "P":
+            return "(SFPackage %s)" % cstr(f[1])
+        if f[0] == "D":
+            return "(SFDirectory %s)" % cstr(f[1])
+        if f[0] == "S":
+            return "(SFSection %s %s)" % (cstr(f[1]), clist(ctuple(*(cstr(t) for t in x)) for x in f[2]))
+        return "(SFOther (mkfield %s %s %s))" % (cstr(f[1]), cstr(f[2]), clist(cstr(c) for c in f[3]))
+    for _ in range(n):
+        case = gen_sbytes_case(rng)
+        text = py_render_sbytes(case)
+        o = impl_parse("sources", root, text, case["flt"], case["ign"])
+        ref = ref_sources(text, case["flt"], case["ign"])
+        rep.case(("sbytes", case["ending"], len(case["ss"]), len(o) if o is not None else -1, bool(any(case["flt"].values()))),
+                 sample={"ending": case["ending"], "text": text[:300], "result": o})
+        rep.count(f"sbytes.ending.{case['ending']}")
+        if o != ref:
+            found = True
+            rep.violation(f"sources index (structured, ending {case['ending']}): parser result differs from the control-file format",
+                          {"kind": "oracle", "tie": "sbytes", "case": case, "impl": o, "reference": ref},
+                          tags={"oracle": "reference", "kind": "sbytes"})
+        f = case["flt"]
+        tail = case["tail"] or ("Files", [], None)
+        cin = ctuple(str(case["ending"]) + "%nat",
+                     clist(ctuple(clist(cs(x) for x in st), str(k) + "%nat") for st, k in case["ss"]),
+                     clist(cs(x) for x in case["last"]),
+                     ctuple(cstr(tail[0]), clist(ctuple(*(cstr(t) for t in x)) for x in tail[1]),
+                            clist([ctuple(*(cstr(t) for t in tail[2]))] if tail[2] else [])),
+                     ctuple(*(clist(cstr(x) for x in f[k]) for k in ("inc_src", "exc_src", "inc_bin", "exc_bin"))),
+                     clist(cstr(x) for x in case["ign"]), cstr(str(root)))
+        rows.append((case, cin, ctuple("true", cstr(text), c_obs(o))))
+    return rows, found
+
+
 def gen_case(rng):
     kind = rng.choice(["packages", "sources"])
     n = rng.choice([0, 1, 2, 3, 5, 8])
@@ -422,7 +539,7 @@ def run(rep: C.Report):
     rep.assumptions += ["lzma/gzip/bz2 and mmap are exercised, not modelled",
                         "byte level: Packages proved against the renderer of Model/Render.v (3 endings); the renderer and "
                         "index_entries are tied to the generator's text and the real parser's result (tie 'bytes'); "
-                        "Sources classification is tied differentially only"]
+                        "the same for Sources (Render.v sfield/sindex_entries, tie 'sbytes')"]
     C.proof_step(rep, thorough=(rep.tier == "thorough"))
     rng = random.Random(rep.seed + 9)
     n = 900 if rep.tier == "quick" else 20000
@@ -438,6 +555,8 @@ def run(rep: C.Report):
         found |= mmap_cases(rep, rng, root)
         brows, bf = run_bytes(rep, random.Random(rep.seed + 909), 150 if rep.tier == "quick" else 4000, root)
         found |= bf
+        sbrows, sbf = run_sbytes(rep, random.Random(rep.seed + 919), 150 if rep.tier == "quick" else 4000, root)
+        found |= sbf
     finally:
         shutil.rmtree(top, ignore_errors=True)
     header = HEADER + COQ_DEFS
@@ -452,6 +571,11 @@ def run(rep: C.Report):
                                          [(a, b) for _, a, b in brows], shard=50, timeout=1500)
     C.tie_verdict(rep, "bytes", mism, errors, [c for c, _, _ in brows], found, header=bheader, fn="m_bytes",
                   coq_inputs=[a for _, a, _ in brows])
+    sheader = BYTES_HEADER.replace("RenderLemmas.", "RenderLemmas SourcesLemmas SourcesRender.") + SBYTES_DEFS
+    mism, errors = C.run_mismatch_shards(rep.prop, "sbytes", sheader, "m_sbytes", "eq_sbytes",
+                                         [(a, b) for _, a, b in sbrows], shard=50, timeout=1500)
+    C.tie_verdict(rep, "sbytes", mism, errors, [c for c, _, _ in sbrows], found, header=sheader, fn="m_sbytes",
+                  coq_inputs=[a for _, a, _ in sbrows])
     C.proof_verdict(rep, found)
 
 
